@@ -15,7 +15,7 @@ func Specs() map[string]*PropSpec {
 		Pkgs: []string{"./x/vesting/types", "./x/vesting/keeper"},
 		Quick: []Inst{
 			vt("VerifC09_Read", "n", "3"), vt("VerifC09_Read", "n", "2", "denoms", "2"),
-			vt("VerifC09_Mono", "n", "3"),
+			vt("VerifC09_Mono", "n", "3"), vt("VerifC09_MessagePeriods"),
 			vt("VerifC09_Disjunct", "na", "2", "nb", "2"), vt("VerifC09_Disjunct", "na", "1", "nb", "2", "denoms", "2"),
 			vt("VerifC09_Conjunct", "na", "2", "nb", "2"), vt("VerifC09_Conjunct", "na", "2", "nb", "1", "denoms", "2"),
 			vt("VerifC09_AccountSplit", "nl", "2", "nv", "2"), vt("VerifC09_Clawback", "nl", "2", "nv", "2"), vt("VerifC09_Clawback", "nl", "1", "nv", "2", "denoms", "2"),
@@ -30,7 +30,7 @@ func Specs() map[string]*PropSpec {
 			vk("VerifC09_MergeGrant", "lock", "2", "vest", "2", "glock", "2", "gvest", "1"), vk("VerifC09_MergeGrant", "lock", "1", "vest", "2", "glock", "2", "gvest", "2"), vk("VerifC09_ClawbackMsg", "lock", "3", "vest", "2"), vk("VerifC09_FunderUpdate"), vk("VerifC09_BalancesQuery", "lock", "3", "vest", "3"),
 		},
 		Bounds: map[string]string{
-			"quick":    "period lists of length <= 3 (read/monotone), 2+2 (merge/cap) with 1 denom and 2+1 with 2 denoms; start in [0,2^60], each length in [0,2^56], read time in [0,2^61], each amount in [0,2^128); keeper level: ApplyVestingSchedule(merge) of a grant with its own start time and <= 2 lockup / 1 vesting periods into an account with <= 2 lockup / 1 vesting periods, the Clawback message on a 2+2 account (signer = funder or not, explicit or default destination), UpdateVestingFunder followed by a clawback attempt of the old funder; start times in [0,2^40], lengths in [0,2^36], amounts < 2^100; Query/Balances of an account with 2 lockup and 2 vesting periods (with and without tracked delegations): locked / vested / unvested are exactly the schedule reads at the block time",
+			"quick":    "period lists of length <= 3 (read/monotone), 2+2 (merge/cap) with 1 denom and 2+1 with 2 denoms; start in [0,2^60], each length in [0,2^56], read time in [0,2^61], each amount in [0,2^128); keeper level: ApplyVestingSchedule(merge) of a grant with its own start time and <= 2 lockup / 1 vesting periods into an account with <= 2 lockup / 1 vesting periods, the Clawback message on a 2+2 account (signer = funder or not, explicit or default destination), UpdateVestingFunder followed by a clawback attempt of the old funder; start times in [0,2^40], lengths in [0,2^36], amounts < 2^100; Query/Balances of an account with 2 lockup and 2 vesting periods (with and without tracked delegations): locked / vested / unvested are exactly the schedule reads at the block time; stateless validation of MsgCreateClawbackVestingAccount / MsgConvertIntoVestingAccount with 2 lockup and 2 vesting periods of arbitrary (also negative) amounts |a| < 2^200 and lengths: accepted => every period has positive length and a positive amount",
 			"thorough": "period lists of length <= 5 (read/monotone), 3+3 with 1 denom and 2+2 with 2 denoms (merge/cap); same value ranges",
 		},
 		Outside:     []string{"more periods than the structural bound", "times beyond 2^61 s (int64 overflow of start+sum of lengths)", "more than 2 denominations", "keeper level: delegated coins of the account (staking getters return zero), sequences of more than one keeper message (each message is decided from an arbitrary valid account), the exact-sum clause of a merge before both schedules have started (not required by the statement)"},
@@ -38,11 +38,11 @@ func Specs() map[string]*PropSpec {
 		Stubs:       []string{"c09AK", "c09Bank", "SDK staking getters (GetDelegatorBonded, GetDelegatorUnbonding, BondDenom)"},
 	}
 	fk := func(fn string, kv ...string) Inst { return Inst{Pkg: "x/feemarket/keeper", Fn: fn, Params: pm(kv...)} }
-	c17 := []Inst{fk("VerifC17_Formula"), fk("VerifC17_Bounds"), fk("VerifC17_Monotone"), fk("VerifC17_BeginBlock"), fk("VerifC17_EndBlock"), fk("VerifC17_ParamsAdmitFormula"), {Pkg: "app/ante/evm", Fn: "VerifC17_GasWantedRecorded", Params: pm(), EngineReplay: true}}
+	c17 := []Inst{fk("VerifC17_Formula"), fk("VerifC17_Bounds"), fk("VerifC17_Monotone"), fk("VerifC17_BeginBlock"), fk("VerifC17_EndBlock"), fk("VerifC17_ParamsAdmitFormula"), {Pkg: "app/ante", Fn: "VerifC17_EveryRouteRecordsGasWanted", Params: pm(), EngineReplay: true}, {Pkg: "app/ante/evm", Fn: "VerifC17_GasWantedRecorded", Params: pm(), EngineReplay: true}}
 	m["C17"] = &PropSpec{
-		ID: "C17", Pkgs: []string{"./x/feemarket/keeper", "./app/ante/evm"}, Quick: c17, Thorough: c17,
+		ID: "C17", Pkgs: []string{"./x/feemarket/keeper", "./app/ante/evm", "./app/ante"}, Quick: c17, Thorough: c17,
 		Bounds: map[string]string{
-			"quick":    "one block, fully symbolic: parent base fee in [0,2^128), gas figure any uint64, MaxGas nil / -1 / [0,2^62], elasticity and denominator any uint32 >= 1, min gas price any Dec in [0,10^42], height and enable height in [0,2^40]; every parameter set accepted by the real Params.Validate (elasticity any uint32) computes a base fee without panicking; monotonicity over two gas figures; EndBlock: gasWanted < 2^63, gasUsed <= limit <= 2^62, multiplier in [0,1]; the recording side: the ante GasWantedDecorator with the real fee-market keeper (any height, enable height, NoBaseFee, block gas limit, previous counter, tx gas) adds the declared gas exactly in the blocks CalculateBaseFee treats as EIP-1559 blocks",
+			"quick":    "one block, fully symbolic: parent base fee in [0,2^128), gas figure any uint64, MaxGas nil / -1 / [0,2^62], elasticity and denominator any uint32 >= 1, min gas price any Dec in [0,10^42], height and enable height in [0,2^40]; every parameter set accepted by the real Params.Validate (elasticity any uint32) computes a base fee without panicking; monotonicity over two gas figures; EndBlock: gasWanted < 2^63, gasUsed <= limit <= 2^62, multiplier in [0,1]; the recording side: the ante GasWantedDecorator with the real fee-market keeper (any height, enable height, NoBaseFee, block gas limit, previous counter, tx gas) adds the declared gas exactly in the blocks CalculateBaseFee treats as EIP-1559 blocks; every ante route (the real constructors of the Ethereum, Cosmos and legacy EIP-712 chains) carries GasWantedDecorator",
 			"thorough": "same (the single-step query is already unbounded in the value dimension)",
 		},
 		Outside: []string{"block gas limit below the elasticity multiplier (target 0: the real code divides by zero once any gas is wanted)", "base fee >= 2^128", "block sequences longer than one step (monotone/bounds are single-step facts from an arbitrary parent base fee, below the minimum gas price included)", "gasWanted >= 2^63 (EndBlock returns early)"},
@@ -57,12 +57,12 @@ func Specs() map[string]*PropSpec {
 		ID: "C11", Pkgs: []string{"./x/liquidvesting/types", "./x/liquidvesting/keeper"},
 		Quick: []Inst{lt("VerifC11_Split", "n", "1"), lt("VerifC11_Split", "n", "3"), lt("VerifC11_Split", "n", "2", "denoms", "2"),
 			lt("VerifC11_NoEarlyUnlock", "n", "1"), lt("VerifC11_NoEarlyUnlock", "n", "2"), lt("VerifC11_NoEarlyUnlock", "n", "3"),
-			lk("VerifC11_LiquidateStep", "periods", "2"), lk("VerifC11_RedeemStep", "denomPeriods", "1"), lk("VerifC11_RedeemStep", "denomPeriods", "2", "recipient", "1")},
+			lk("VerifC11_LiquidateStep", "periods", "2"), lk("VerifC11_RedeemStep", "denomPeriods", "1"), lk("VerifC11_RedeemStep", "denomPeriods", "2", "recipient", "1"), lk("VerifC11_RedeemStep", "denomPeriods", "3", "recipient", "1")},
 		Thorough: []Inst{lt("VerifC11_Split", "n", "1"), lt("VerifC11_Split", "n", "3"), lt("VerifC11_Split", "n", "5"), lt("VerifC11_Split", "n", "3", "denoms", "2"),
 			lt("VerifC11_NoEarlyUnlock", "n", "1"), lt("VerifC11_NoEarlyUnlock", "n", "2"), lt("VerifC11_NoEarlyUnlock", "n", "3"), lt("VerifC11_NoEarlyUnlock", "n", "4"),
 			lk("VerifC11_LiquidateStep", "periods", "3"), lk("VerifC11_RedeemStep", "denomPeriods", "2"), lk("VerifC11_RedeemStep", "denomPeriods", "1", "toPeriods", "2")},
 		Bounds: map[string]string{
-			"quick":    "lockup schedules of <= 3 periods (split and liquid-schedule construction), amounts in [0,2^100), subtrahend in [0,2^100), start in [0,2^60], lengths in [0,2^56], liquidation and read times in [0,2^61]; keeper level (inductive step from an arbitrary module state satisfying the backing invariant: one existing liquid token with a symbolic schedule, partly held as ERC20 tokens, arbitrary module surplus): one Liquidate from a clawback account with <= 2 lockup periods, one Redeem of a 1-period token to oneself / a plain EVM account / an existing clawback account with its own 1-period schedule, and of a 2-period token to a plain EVM account; start times in [0,2^40], lengths in [1,2^36], amounts < 2^100, every observation instant",
+			"quick":    "lockup schedules of <= 3 periods (split and liquid-schedule construction), amounts in [0,2^100), subtrahend in [0,2^100), start in [0,2^60], lengths in [0,2^56], liquidation and read times in [0,2^61]; keeper level (inductive step from an arbitrary module state satisfying the backing invariant: one existing liquid token with a symbolic schedule, partly held as ERC20 tokens, arbitrary module surplus): one Liquidate from a clawback account with <= 2 lockup periods, one Redeem of a 1-period token to oneself / a plain EVM account / an existing clawback account with its own 1-period schedule, and of a 2-period token to a plain EVM account; start times in [0,2^40], lengths in [1,2^36], amounts < 2^100, every observation instant; redeem of a liquid token with 3 periods (zero-amount periods, also consecutive ones, included) into an existing vesting account",
 			"thorough": "split up to 5 periods, liquid-schedule construction up to 4 periods; Liquidate with 3 lockup periods, Redeem of a 2-period token and into a 2-period account; same value ranges",
 		},
 		Outside:     []string{"sequences of more than one Liquidate/Redeem are covered only through the inductive invariant (escrow = total liquid supply, recorded schedule sums to supply), not enumerated", "the ERC20 side is a 1:1 escrow ledger (the real conversion is C10's subject)", "delegated coins of the recipient (staking getters return zero)", "more periods than the bound", "liquidation at or before the schedule start (rejected by Liquidate because nothing is vested then)"},
@@ -72,12 +72,12 @@ func Specs() map[string]*PropSpec {
 	ck := func(fn string, kv ...string) Inst { return Inst{Pkg: "x/coinomics/keeper", Fn: fn, Params: pm(kv...)} }
 	m["C13"] = &PropSpec{
 		ID: "C13", Pkgs: []string{"./x/coinomics/keeper", "./x/coinomics", "./app"},
-		Quick:    []Inst{ck("VerifC13_Mint"), ck("VerifC13_Disabled"), ck("VerifC13_Reactivation"), ck("VerifC13_ParamsAdmitMint"), {Pkg: "x/coinomics", Fn: "VerifC19_Coinomics", Params: pm()}},
-		Thorough: []Inst{ck("VerifC13_Mint", "years", "all"), ck("VerifC13_Disabled"), ck("VerifC13_Reactivation"), ck("VerifC13_ParamsAdmitMint"), {Pkg: "x/coinomics", Fn: "VerifC19_Coinomics", Params: pm()}},
+		Quick:    []Inst{ck("VerifC13_Mint"), ck("VerifC13_Disabled"), ck("VerifC13_Reactivation"), ck("VerifC13_ParamsAdmitMint"), {Pkg: "x/coinomics", Fn: "VerifC19_Coinomics", Params: pm()}, {Pkg: "x/coinomics", Fn: "VerifC13_ModuleEndBlock", Params: pm(), EngineReplay: true}},
+		Thorough: []Inst{ck("VerifC13_Mint", "years", "all"), ck("VerifC13_Disabled"), ck("VerifC13_Reactivation"), ck("VerifC13_ParamsAdmitMint"), {Pkg: "x/coinomics", Fn: "VerifC19_Coinomics", Params: pm()}, {Pkg: "x/coinomics", Fn: "VerifC13_ModuleEndBlock", Params: pm(), EngineReplay: true}},
 		Wiring: []WiringFact{{Kind: "order", Fn: "github.com/haqq-network/haqq/app.NewHaqq", Callee: "(*github.com/cosmos/cosmos-sdk/types/module.Manager).SetOrderEndBlockers", Want: "staking<coinomics",
 			Why: "the mint step reads the bonded total in the coinomics end blocker: it must run after the staking end blocker, which moves tokens between the bonded and not-bonded pools when the validator set changes (otherwise the block mints on a stale bonded total)", ProbePkg: "app", ProbeTest: "TestVerifWiringC13"}},
 		Bounds: map[string]string{
-			"quick":    "one EndBlocker step from an arbitrary state: bonded, supply, max supply in [0,2^100), reward coefficient any Dec in [0,100], previous timestamp in [0,2^45) ms, block time anywhere inside each of the calendar years {1970,1999,2000,2023,2024,2100,2104,2200,2300,2399}; two-step history disable -> enable; block sequences across a restart: export / import of the module state keeps the previous block timestamp, the maximum supply and the parameters (VerifC19_Coinomics, as C19), so the step after a restart is the step above from the same state; every reward coefficient in [-100,100] that the real Params.Validate accepts: an enabled block below the cap records its timestamp and mints a non-negative amount",
+			"quick":    "one EndBlocker step from an arbitrary state: bonded, supply, max supply in [0,2^100), reward coefficient any Dec in [0,100], previous timestamp in [0,2^45) ms, block time anywhere inside each of the calendar years {1970,1999,2000,2023,2024,2100,2104,2200,2300,2399}; two-step history disable -> enable; block sequences across a restart: export / import of the module state keeps the previous block timestamp, the maximum supply and the parameters (VerifC19_Coinomics, as C19), so the step after a restart is the step above from the same state; every reward coefficient in [-100,100] that the real Params.Validate accepts: an enabled block below the cap records its timestamp and mints a non-negative amount; module boundary: AppModule.EndBlock leaves minted amount, previous-block timestamp and enabled flag exactly as the keeper's end blocker does, from any state (coefficient 0 and disabled included)",
 			"thorough": "same with the block time anywhere inside every calendar year 1970..2399",
 		},
 		Outside:     []string{"block times after 2400 or before 1970", "distribution of the fee collector balance by x/distribution", "histories longer than two steps (single-step facts are inductive: they are proved from an arbitrary pre-state)"},
@@ -86,11 +86,11 @@ func Specs() map[string]*PropSpec {
 	}
 	dk := func(fn string, kv ...string) Inst { return Inst{Pkg: "x/ucdao/keeper", Fn: fn, Params: pm(kv...)} }
 	m["C12"] = &PropSpec{
-		ID: "C12", Pkgs: []string{"./x/ucdao/keeper"},
-		Quick:    []Inst{dk("VerifC12_Fund", "accounts", "2"), dk("VerifC12_Transfer", "accounts", "2"), dk("VerifC12_Fund", "accounts", "2", "prefix", "1"), dk("VerifC12_Transfer", "accounts", "2", "prefix", "1"), dk("VerifC12_Transfer", "accounts", "2", "longaddr", "1")},
-		Thorough: []Inst{dk("VerifC12_Fund", "accounts", "3"), dk("VerifC12_Transfer", "accounts", "3"), dk("VerifC12_Fund", "accounts", "3", "prefix", "1"), dk("VerifC12_Transfer", "accounts", "2", "prefix", "1"), dk("VerifC12_Transfer", "accounts", "3", "longaddr", "1"), dk("VerifC12_Fund", "accounts", "2", "longaddr", "1")},
+		ID: "C12", Pkgs: []string{"./x/ucdao/keeper", "./app"},
+		Quick:    []Inst{dk("VerifC12_Fund", "accounts", "2"), dk("VerifC12_Transfer", "accounts", "2"), dk("VerifC12_Fund", "accounts", "2", "prefix", "1"), dk("VerifC12_Transfer", "accounts", "2", "prefix", "1"), dk("VerifC12_Transfer", "accounts", "2", "longaddr", "1"), {Pkg: "app", Fn: "VerifC12_DaoAccountBlocked", Params: pm()}},
+		Thorough: []Inst{dk("VerifC12_Fund", "accounts", "3"), dk("VerifC12_Transfer", "accounts", "3"), dk("VerifC12_Fund", "accounts", "3", "prefix", "1"), dk("VerifC12_Transfer", "accounts", "2", "prefix", "1"), dk("VerifC12_Transfer", "accounts", "3", "longaddr", "1"), dk("VerifC12_Fund", "accounts", "2", "longaddr", "1"), {Pkg: "app", Fn: "VerifC12_DaoAccountBlocked", Params: pm()}},
 		Bounds: map[string]string{
-			"quick":    "one message (Fund / TransferOwnership / WithRatio / WithAmount, any signer and recipient incl. the same account) from an arbitrary ledger satisfying the invariant over 2 accounts x 2 denominations; balances, wallet funds in [0,2^100), message amounts any 256-bit integer (zero and negative entries included), ratio any Dec in [-1,2]; the same with the denomination universe {aLIQUID1, aLIQUID10} (one a string prefix of the other) and, for transfers, with one holder being a 32-byte address whose last 20 bytes are another holder's address",
+			"quick":    "one message (Fund / TransferOwnership / WithRatio / WithAmount, any signer and recipient incl. the same account) from an arbitrary ledger satisfying the invariant over 2 accounts x 2 denominations; balances, wallet funds in [0,2^100), message amounts any 256-bit integer (zero and negative entries included), ratio any Dec in [-1,2]; the same with the denomination universe {aLIQUID1, aLIQUID10} (one a string prefix of the other) and, for transfers, with one holder being a 32-byte address whose last 20 bytes are another holder's address; application wiring: the real BlockedAddrs() of the application contains the ucdao module account (and every registered module account), so MsgFund is the only way coins enter it",
 			"thorough": "same over 3 accounts x 2 denominations",
 		},
 		Outside:     []string{"more accounts or denominations than the bound (the step is proved from an arbitrary invariant state, so longer histories over the bounded universe are covered)", "state left by a failing message (rolled back by the SDK: stated, not proved)", "queries / pagination"},
@@ -157,10 +157,10 @@ func Specs() map[string]*PropSpec {
 	an := func(kv ...string) Inst { return Inst{Pkg: "app/ante", Fn: "VerifC06_Routes", Params: pm(kv...)} }
 	m["C06"] = &PropSpec{
 		ID: "C06", Pkgs: []string{"./app/ante", "./app/ante/evm", "./app/ante/cosmos"},
-		Quick:    []Inst{an("depth", "2", "width", "2", "top", "2"), an("depth", "8", "width", "1", "top", "1"), {Pkg: "app/ante/evm", Fn: "VerifC06_EthRouteTypes", Params: pm()}, {Pkg: "app/ante", Fn: "VerifC06_ExtensionOptions", Params: pm("max", "3")}, {Pkg: "app/ante/evm", Fn: "VerifC06_EthExtensionOptions", Params: pm("max", "3"), EngineReplay: true}, {Pkg: "app/ante/cosmos", Fn: "VerifC06_Eip712ExtensionOptions", Params: pm("max", "3"), EngineReplay: true}},
-		Thorough: []Inst{an("depth", "2", "width", "2", "top", "2"), an("depth", "3", "width", "2", "top", "1"), an("depth", "9", "width", "1", "top", "2"), {Pkg: "app/ante/evm", Fn: "VerifC06_EthRouteTypes", Params: pm()}, {Pkg: "app/ante", Fn: "VerifC06_ExtensionOptions", Params: pm("max", "4")}, {Pkg: "app/ante/evm", Fn: "VerifC06_EthExtensionOptions", Params: pm("max", "4"), EngineReplay: true}, {Pkg: "app/ante/cosmos", Fn: "VerifC06_Eip712ExtensionOptions", Params: pm("max", "4"), EngineReplay: true}},
+		Quick:    []Inst{an("depth", "2", "width", "2", "top", "2"), an("depth", "8", "width", "1", "top", "1"), {Pkg: "app/ante/evm", Fn: "VerifC06_EthRouteTypes", Params: pm()}, {Pkg: "app/ante", Fn: "VerifC06_ExtensionOptions", Params: pm("max", "3")}, {Pkg: "app/ante/evm", Fn: "VerifC06_EthExtensionOptions", Params: pm("max", "3"), EngineReplay: true}, {Pkg: "app/ante/cosmos", Fn: "VerifC06_Eip712ExtensionOptions", Params: pm("max", "3"), EngineReplay: true}, {Pkg: "app/ante", Fn: "VerifAnteRouteComposition", Params: pm(), EngineReplay: true}},
+		Thorough: []Inst{an("depth", "2", "width", "2", "top", "2"), an("depth", "3", "width", "2", "top", "1"), an("depth", "9", "width", "1", "top", "2"), {Pkg: "app/ante/evm", Fn: "VerifC06_EthRouteTypes", Params: pm()}, {Pkg: "app/ante", Fn: "VerifC06_ExtensionOptions", Params: pm("max", "4")}, {Pkg: "app/ante/evm", Fn: "VerifC06_EthExtensionOptions", Params: pm("max", "4"), EngineReplay: true}, {Pkg: "app/ante/cosmos", Fn: "VerifC06_Eip712ExtensionOptions", Params: pm("max", "4"), EngineReplay: true}, {Pkg: "app/ante", Fn: "VerifAnteRouteComposition", Params: pm(), EngineReplay: true}},
 		Bounds: map[string]string{
-			"quick":    "every transaction of <= 2 top-level messages, nesting depth <= 2 with <= 2 children per MsgExec (7 node kinds: exec, grant of eth / vesting-create / send, MsgEthereumTx, MsgCreateVestingAccount, MsgSend), plus single chains nested up to depth 8 (beyond the cap of 7); every list of <= 2 extension options over {eth, web3, dynamic-fee, unknown}; on the Cosmos route (handler built with the application's extension-option checker) every list of <= 3 options after a leading dynamic-fee option: rejected exactly when some option is not the supported one; on the Ethereum route (EthValidateBasicDecorator) and on the legacy EIP-712 route (the real VerifySignature prelude) every list of <= 3 options after the route-selecting one: accepted only when it is the single option",
+			"quick":    "every transaction of <= 2 top-level messages, nesting depth <= 2 with <= 2 children per MsgExec (7 node kinds: exec, grant of eth / vesting-create / send, MsgEthereumTx, MsgCreateVestingAccount, MsgSend), plus single chains nested up to depth 8 (beyond the cap of 7); every list of <= 2 extension options over {eth, web3, dynamic-fee, unknown}; on the Cosmos route (handler built with the application's extension-option checker) every list of <= 3 options after a leading dynamic-fee option: rejected exactly when some option is not the supported one; on the Ethereum route (EthValidateBasicDecorator) and on the legacy EIP-712 route (the real VerifySignature prelude) every list of <= 3 options after the route-selecting one: accepted only when it is the single option; route composition: the real chain constructors put the message blocker, the authz limiter, the extension-option checks and the per-route validation decorators on each route",
 			"thorough": "additionally depth 3 x width 2 (1 top-level message) and chains to depth 9 with 2 top-level messages",
 		},
 		Outside:     []string{"the type assertions inside the individual eth-route decorators (they need keeper stubs; planned with the eth ante harnesses)", "wider / deeper forests than the bound", "decorators after the blocking ones (they can only reject more)"},
@@ -169,7 +169,7 @@ func Specs() map[string]*PropSpec {
 	et := func(fn string) Inst { return Inst{Pkg: "x/evm/types", Fn: fn, Params: pm()} }
 	m["C18"] = &PropSpec{
 		ID: "C18", Pkgs: []string{"./x/evm/types"},
-		Quick: []Inst{et("VerifC18_RoundTrip"), et("VerifC18_Fees"), et("VerifC18_RecordedHash")}, Thorough: []Inst{et("VerifC18_RoundTrip"), et("VerifC18_Fees"), et("VerifC18_RecordedHash")},
+		Quick: []Inst{et("VerifC18_RoundTrip"), et("VerifC18_Fees"), et("VerifC18_RecordedHash"), et("VerifC18_UnwrapKeepsRecordedHashes")}, Thorough: []Inst{et("VerifC18_RoundTrip"), et("VerifC18_Fees"), et("VerifC18_RecordedHash"), et("VerifC18_UnwrapKeepsRecordedHashes")},
 		Bounds: map[string]string{
 			"quick":    "legacy, access-list and dynamic-fee transactions: nonce, gas any uint64; value, gas price / tip / fee cap, r, s any integer in [0,2^256); v, chain id in [0,2^64); data of 0..2 symbolic bytes; access lists {nil, empty, 1 tuple x 1 key, 3 tuples x (2,1,0) keys}; contract creation and call; base fee in [0,2^200); recorded hash: for one transaction of each type, a message whose Hash string is the canonical hash or one of four other spellings (upper case, no 0x prefix, over-long with the hash as suffix, all zero) passes ValidateBasic only when the string is exactly the canonical Ethereum hash",
 			"thorough": "same",
@@ -178,11 +178,11 @@ func Specs() map[string]*PropSpec {
 		Assumptions: []string{"big.Int theory; (*big.Int).Bytes / SetBytes as an inverse pair with the empty string for zero", "codectypes.Any keeps the cached value; proto.Marshal is a typed blob", "(*Transaction).Hash stubbed (uninterpreted)"},
 	}
 	m["C07"] = &PropSpec{
-		ID: "C07", Pkgs: []string{"./x/evm/keeper", "./app/ante/evm", "./app/ante/cosmos"},
+		ID: "C07", Pkgs: []string{"./x/evm/keeper", "./app/ante/evm", "./app/ante/cosmos", "./app/ante"},
 		Quick: []Inst{{Pkg: "x/evm/keeper", Fn: "VerifC07_GasUsed", Params: pm(), EngineReplay: true}, {Pkg: "x/evm/keeper", Fn: "VerifC07_VerifyFee", Params: pm()},
-			{Pkg: "app/ante/evm", Fn: "VerifC07_EthFloor", Params: pm("msgs", "2")}, {Pkg: "app/ante/cosmos", Fn: "VerifC07_CosmosFloor", Params: pm()}, {Pkg: "app/ante/evm", Fn: "VerifC07_EachSenderPaysItsOwnFee", Params: pm("msgs", "2")}, {Pkg: "app/ante/cosmos", Fn: "VerifC07_CosmosCharged", Params: pm()}},
+			{Pkg: "app/ante/evm", Fn: "VerifC07_EthFloor", Params: pm("msgs", "2")}, {Pkg: "app/ante/cosmos", Fn: "VerifC07_CosmosFloor", Params: pm()}, {Pkg: "app/ante/evm", Fn: "VerifC07_EachSenderPaysItsOwnFee", Params: pm("msgs", "2")}, {Pkg: "app/ante/cosmos", Fn: "VerifC07_CosmosCharged", Params: pm()}, {Pkg: "app/ante", Fn: "VerifAnteRouteComposition", Params: pm(), EngineReplay: true}},
 		Thorough: []Inst{{Pkg: "x/evm/keeper", Fn: "VerifC07_GasUsed", Params: pm(), EngineReplay: true}, {Pkg: "x/evm/keeper", Fn: "VerifC07_VerifyFee", Params: pm()},
-			{Pkg: "app/ante/evm", Fn: "VerifC07_EthFloor", Params: pm("msgs", "3")}, {Pkg: "app/ante/cosmos", Fn: "VerifC07_CosmosFloor", Params: pm()}, {Pkg: "app/ante/evm", Fn: "VerifC07_EachSenderPaysItsOwnFee", Params: pm("msgs", "2")}, {Pkg: "app/ante/cosmos", Fn: "VerifC07_CosmosCharged", Params: pm()}},
+			{Pkg: "app/ante/evm", Fn: "VerifC07_EthFloor", Params: pm("msgs", "3")}, {Pkg: "app/ante/cosmos", Fn: "VerifC07_CosmosFloor", Params: pm()}, {Pkg: "app/ante/evm", Fn: "VerifC07_EachSenderPaysItsOwnFee", Params: pm("msgs", "2")}, {Pkg: "app/ante/cosmos", Fn: "VerifC07_CosmosCharged", Params: pm()}, {Pkg: "app/ante", Fn: "VerifAnteRouteComposition", Params: pm(), EngineReplay: true}},
 		Bounds: map[string]string{
 			"quick":    "one message call or contract creation through the real ApplyMessageWithConfig + RefundGas with the EVM interpreter stubbed to an arbitrary outcome (gas limit < 2^62, any leftover, refund counter, VM error, intrinsic gas; multiplier any Dec in [0,1]; price < 2^128); VerifyFee for legacy and dynamic-fee data; eth min-gas-price decorator over <= 2 messages; Cosmos min-gas-price decorator over 5 fee shapes; eth gas-consume decorator on <= 2 messages from up to 2 different senders (any gas, prices, base fee): every sender is charged exactly gasLimit x effective price of its own messages; Cosmos route, what is charged: MinGasPriceDecorator followed by the dynamic fee checker (with or without the dynamic-fee extension option, any base fee < 2^64, minimum gas price, declared fee < 2^120, max priority price, gas in {1, 3, 21000, 1000003}): accepted => charged >= gas x whole-unit minimum gas price and <= the declared fee",
 			"thorough": "eth min-gas-price decorator over <= 3 messages",
@@ -192,15 +192,15 @@ func Specs() map[string]*PropSpec {
 		Stubs:       []string{"c07NewEVM/c07Call/c07Create/c07Intrinsic", "c07Bank", "c07FeeMarket", "vEVMKeeper", "vFeeMarket"},
 	}
 	m["C03"] = &PropSpec{
-		ID: "C03", Pkgs: []string{"./app/ante/evm", "./app/ante/cosmos", "./x/evm/keeper", "./ethereum/eip712", "./x/vesting/keeper"},
+		ID: "C03", Pkgs: []string{"./app/ante/evm", "./app/ante/cosmos", "./x/evm/keeper", "./ethereum/eip712", "./x/vesting/keeper", "./x/bank/keeper", "./app/ante"},
 		Quick:    []Inst{{Pkg: "app/ante/evm", Fn: "VerifC03_Nonce", Params: pm("msgs", "3")}, {Pkg: "app/ante/cosmos", Fn: "VerifC03_Eip712Sequence", Params: pm(), EngineReplay: true},
 			{Pkg: "app/ante/evm", Fn: "VerifC03_EthChainID", Params: pm(), EngineReplay: true}, {Pkg: "x/evm/keeper", Fn: "VerifC03_ExecutionKeepsSequence", Params: pm(), EngineReplay: true},
-			{Pkg: "ethereum/eip712", Fn: "VerifC03_Eip712DirectCoverage", Params: pm(), EngineReplay: true}, {Pkg: "app/ante/cosmos", Fn: "VerifC03_Eip712LegacyCoverage", Params: pm(), EngineReplay: true}, {Pkg: "x/vesting/keeper", Fn: "VerifC03_ScheduleKeepsAccountIdentity", Params: pm(), EngineReplay: true}},
+			{Pkg: "ethereum/eip712", Fn: "VerifC03_Eip712DirectCoverage", Params: pm(), EngineReplay: true}, {Pkg: "app/ante/cosmos", Fn: "VerifC03_Eip712LegacyCoverage", Params: pm(), EngineReplay: true}, {Pkg: "x/vesting/keeper", Fn: "VerifC03_ScheduleKeepsAccountIdentity", Params: pm(), EngineReplay: true}, {Pkg: "x/bank/keeper", Fn: "VerifC03_BankSendKeepsRecipientAccount", Params: pm(), EngineReplay: true}, {Pkg: "app/ante", Fn: "VerifAnteRouteComposition", Params: pm(), EngineReplay: true}},
 		Thorough: []Inst{{Pkg: "app/ante/evm", Fn: "VerifC03_Nonce", Params: pm("msgs", "4")}, {Pkg: "app/ante/cosmos", Fn: "VerifC03_Eip712Sequence", Params: pm(), EngineReplay: true},
 			{Pkg: "app/ante/evm", Fn: "VerifC03_EthChainID", Params: pm(), EngineReplay: true}, {Pkg: "x/evm/keeper", Fn: "VerifC03_ExecutionKeepsSequence", Params: pm(), EngineReplay: true},
-			{Pkg: "ethereum/eip712", Fn: "VerifC03_Eip712DirectCoverage", Params: pm(), EngineReplay: true}, {Pkg: "app/ante/cosmos", Fn: "VerifC03_Eip712LegacyCoverage", Params: pm(), EngineReplay: true}, {Pkg: "x/vesting/keeper", Fn: "VerifC03_ScheduleKeepsAccountIdentity", Params: pm(), EngineReplay: true}},
+			{Pkg: "ethereum/eip712", Fn: "VerifC03_Eip712DirectCoverage", Params: pm(), EngineReplay: true}, {Pkg: "app/ante/cosmos", Fn: "VerifC03_Eip712LegacyCoverage", Params: pm(), EngineReplay: true}, {Pkg: "x/vesting/keeper", Fn: "VerifC03_ScheduleKeepsAccountIdentity", Params: pm(), EngineReplay: true}, {Pkg: "x/bank/keeper", Fn: "VerifC03_BankSendKeepsRecipientAccount", Params: pm(), EngineReplay: true}, {Pkg: "app/ante", Fn: "VerifAnteRouteComposition", Params: pm(), EngineReplay: true}},
 		Bounds: map[string]string{
-			"quick":    "Ethereum transactions of <= 3 messages by 2 senders in any interleaving (legacy and dynamic-fee), any nonces, any account sequences < 2^62; immediate replay of the accepted transaction; chain binding on the Ethereum route: one legacy (any v < 2^40), access-list or dynamic-fee (any chain id < 2^40) transaction through the signature decorator with go-ethereum's signer selection and chain-id check executed, AllowUnprotectedTxs on/off; execution (real ApplyMessageWithConfig, call or contract creation, any interpreter outcome, 0-3 later messages of the same transaction already accepted by the ante handler) leaves the sender's sequence exactly where the ante handler put it; EIP-712 over a SIGN_MODE_DIRECT sign doc (one bank message, any memo / timeout height / fee / payer / granter / sequence / account number, extension options of either kind): accepted => every such field reaches the sign bytes; legacy EIP-712 (Web3Tx) route: the real VerifySignature hands a different payload to the typed-data construction (or refuses) for any two transactions differing in exactly one of {fee amount, gas, fee granter set / removed / replaced, memo, timeout height, message, sequence, account number, chain id}; account identity across ApplyVestingSchedule (conversion of a plain account, merge into a vesting account; any sequence / account number): address, sequence, account number and public key are kept",
+			"quick":    "Ethereum transactions of <= 3 messages by 2 senders in any interleaving (legacy and dynamic-fee), any nonces, any account sequences < 2^62; immediate replay of the accepted transaction; chain binding on the Ethereum route: one legacy (any v < 2^40), access-list or dynamic-fee (any chain id < 2^40) transaction through the signature decorator with go-ethereum's signer selection and chain-id check executed, AllowUnprotectedTxs on/off; execution (real ApplyMessageWithConfig, call or contract creation, any interpreter outcome, 0-3 later messages of the same transaction already accepted by the ante handler) leaves the sender's sequence exactly where the ante handler put it; EIP-712 over a SIGN_MODE_DIRECT sign doc (one bank message, any memo / timeout height / fee / payer / granter / sequence / account number, extension options of either kind): accepted => every such field reaches the sign bytes; legacy EIP-712 (Web3Tx) route: the real VerifySignature hands a different payload to the typed-data construction (or refuses) for any two transactions differing in exactly one of {fee amount, gas, fee granter set / removed / replaced, memo, timeout height, message, sequence, account number, chain id}; account identity across ApplyVestingSchedule (conversion of a plain account, merge into a vesting account; any sequence / account number): address, sequence, account number and public key are kept; bank send wrapper on the ERC20-pair path (honest token): an existing recipient keeps sequence, account number and key, an absent one is created at sequence 0",
 			"thorough": "<= 4 messages",
 		},
 		Outside:     []string{"signature validity (keccak-256, RLP, secp256k1 recovery, EIP-712 typed-data hashing): cannot be encoded for an SMT solver within reach", "that a signature verifies only for the exact signed content (inside VerifySignature / go-ethereum)", "the plain Cosmos route (SDK SigVerificationDecorator) and the non-legacy EIP-712 path"},
@@ -209,14 +209,14 @@ func Specs() map[string]*PropSpec {
 	}
 	sd := func(fn string, kv ...string) Inst { return Inst{Pkg: "x/evm/statedb", Fn: fn, Params: pm(kv...)} }
 	m["C05"] = &PropSpec{
-		ID: "C05", Pkgs: []string{"./x/evm/statedb", "./precompiles/staking", "./x/evm/keeper"},
+		ID: "C05", Pkgs: []string{"./x/evm/statedb", "./precompiles/staking", "./x/evm/keeper", "./precompiles/distribution"},
 		Quick: []Inst{sd("VerifC05_StateDB", "ops", "3", "kinds", "tsdf"), sd("VerifC05_StateDB", "ops", "4", "kinds", "sfc", "addrs", "2", "vals", "2"), sd("VerifC05_StateDB", "ops", "3", "kinds", "tfc", "amts", "1"),
-			{Pkg: "precompiles/staking", Fn: "VerifC05_PrecompileRevert", Params: pm(), EngineReplay: true}, {Pkg: "precompiles/staking", Fn: "VerifC04_RunAtomic", Params: pm(), EngineReplay: true}, {Pkg: "x/evm/keeper", Fn: "VerifC05_ApplyTransaction", Params: pm(), EngineReplay: true}, {Pkg: "x/evm/keeper", Fn: "VerifC05_KeeperWriteBack", Params: pm(), EngineReplay: true}},
+			{Pkg: "precompiles/staking", Fn: "VerifC05_PrecompileRevert", Params: pm(), EngineReplay: true}, {Pkg: "precompiles/staking", Fn: "VerifC04_RunAtomic", Params: pm(), EngineReplay: true}, {Pkg: "precompiles/distribution", Fn: "VerifC05_DistributionRunAtomic", Params: pm(), EngineReplay: true}, {Pkg: "x/evm/keeper", Fn: "VerifC05_ApplyTransaction", Params: pm(), EngineReplay: true}, {Pkg: "x/evm/keeper", Fn: "VerifC05_KeeperWriteBack", Params: pm(), EngineReplay: true}},
 		Thorough: []Inst{sd("VerifC05_StateDB", "ops", "3", "kinds", "tsdfc"), sd("VerifC05_StateDB", "ops", "4", "kinds", "sfc", "addrs", "2", "vals", "2"), sd("VerifC05_StateDB", "ops", "4", "kinds", "tfc", "amts", "1"),
-			sd("VerifC05_StateDB", "ops", "4", "kinds", "sdf", "addrs", "2", "vals", "2"), {Pkg: "precompiles/staking", Fn: "VerifC05_PrecompileRevert", Params: pm(), EngineReplay: true}, {Pkg: "precompiles/staking", Fn: "VerifC04_RunAtomic", Params: pm(), EngineReplay: true},
+			sd("VerifC05_StateDB", "ops", "4", "kinds", "sdf", "addrs", "2", "vals", "2"), {Pkg: "precompiles/staking", Fn: "VerifC05_PrecompileRevert", Params: pm(), EngineReplay: true}, {Pkg: "precompiles/staking", Fn: "VerifC04_RunAtomic", Params: pm(), EngineReplay: true}, {Pkg: "precompiles/distribution", Fn: "VerifC05_DistributionRunAtomic", Params: pm(), EngineReplay: true},
 			{Pkg: "x/evm/keeper", Fn: "VerifC05_ApplyTransaction", Params: pm(), EngineReplay: true}, {Pkg: "x/evm/keeper", Fn: "VerifC05_KeeperWriteBack", Params: pm(), EngineReplay: true}},
 		Bounds: map[string]string{
-			"quick":    "every program of <= 3 state operations (value transfer, SSTORE, SELFDESTRUCT, nested call frame that returns or reverts, depth <= 2) over 3 accounts x 2 slots; plus the focused families of 4 operations {SSTORE, frame, mid-transaction Commit} over 2 accounts and 3 operations {transfer, frame, mid-transaction Commit}; all operand choices enumerated; one inner frame that calls staking approve / revoke / delegate (real method bodies, symbolic amounts and pre-existing grant) and then reverts or returns, compared with the Cosmos-side state (grant store, bonded pool, delegator balance) before the frame; transaction level: the real ApplyTransaction (call or creation, any interpreter outcome, post-processing hook succeeding or failing) with an interpreter that writes a storage slot and a Cosmos-side record into the StateDB's context: both persist exactly when the transaction succeeds; keeper write-back: SetAccount with any nonce (also lower than the stored one), balance < 2^128 and code hash over an absent or existing account is read back exactly by GetAccount",
+			"quick":    "every program of <= 3 state operations (value transfer, SSTORE, SELFDESTRUCT, nested call frame that returns or reverts, depth <= 2) over 3 accounts x 2 slots; plus the focused families of 4 operations {SSTORE, frame, mid-transaction Commit} over 2 accounts and 3 operations {transfer, frame, mid-transaction Commit}; all operand choices enumerated; one inner frame that calls staking approve / revoke / delegate (real method bodies, symbolic amounts and pre-existing grant) and then reverts or returns, compared with the Cosmos-side state (grant store, bonded pool, delegator balance) before the frame; transaction level: the real ApplyTransaction (call or creation, any interpreter outcome, post-processing hook succeeding or failing) with an interpreter that writes a storage slot and a Cosmos-side record into the StateDB's context: both persist exactly when the transaction succeeds; keeper write-back: SetAccount with any nonce (also lower than the stored one), balance < 2^128 and code hash over an absent or existing account is read back exactly by GetAccount; the real staking and distribution Precompile.Run with the SDK gas meter running out at any Cosmos-side write (staking: delegate / undelegate under a limited grant; distribution: withdrawDelegatorRewards / claimRewards / setWithdrawAddress with a two-write payout): a failed call leaves the Cosmos-side state as it was",
 			"thorough": "all five operation kinds with 3 operations; the focused families with 4 operations",
 		},
 		Outside:     []string{"Cosmos-side effects of the distribution and ICS-20 precompiles (same structure as the staking ones decided here: direct writes to the SDK context)", "gas, contract bytecode (the harness is the call tree)", "longer programs / deeper nesting than the bound"},
@@ -226,7 +226,7 @@ func Specs() map[string]*PropSpec {
 	m["C02"] = &PropSpec{
 		ID: "C02", Pkgs: []string{"./x/evm/statedb", "./precompiles/staking", "./precompiles/distribution", "./x/evm/keeper", "./precompiles/ics20"},
 		Quick: []Inst{sd("VerifC05_StateDB", "ops", "3", "kinds", "tdf"), sd("VerifC05_StateDB", "ops", "4", "kinds", "td", "amts", "1"),
-			{Pkg: "precompiles/staking", Fn: "VerifC02_StakingMirror", Params: pm(), EngineReplay: true},
+			{Pkg: "precompiles/staking", Fn: "VerifC02_StakingMirror", Params: pm(), EngineReplay: true}, {Pkg: "precompiles/staking", Fn: "VerifC04_RunAtomic", Params: pm(), EngineReplay: true},
 			{Pkg: "precompiles/distribution", Fn: "VerifC02_DistributionMirror", Params: pm(), EngineReplay: true},
 			{Pkg: "x/evm/keeper", Fn: "VerifC02_KeeperFlush", Params: pm()}, {Pkg: "precompiles/ics20", Fn: "VerifC04_Ics20", Params: pm(), EngineReplay: true}},
 		Thorough: []Inst{sd("VerifC05_StateDB", "ops", "3", "kinds", "tdf"), sd("VerifC05_StateDB", "ops", "4", "kinds", "tdf", "amts", "1", "addrs", "2"), sd("VerifC05_StateDB", "ops", "4", "kinds", "td", "amts", "1"),
@@ -234,7 +234,7 @@ func Specs() map[string]*PropSpec {
 			{Pkg: "precompiles/distribution", Fn: "VerifC02_DistributionMirror", Params: pm(), EngineReplay: true},
 			{Pkg: "x/evm/keeper", Fn: "VerifC02_KeeperFlush", Params: pm()}, {Pkg: "precompiles/ics20", Fn: "VerifC04_Ics20", Params: pm(), EngineReplay: true}},
 		Bounds: map[string]string{
-			"quick":    "every program of <= 3 operations from {value transfer, SELFDESTRUCT, nested frame} over 3 accounts, and every program of 4 operations from {transfer, SELFDESTRUCT}: after Commit total supply = sum of surviving balances, never above the initial supply, every balance = before + received - paid; staking precompile delegate through the real StateDB and the real method body: signer -> precompile and signer -> contract -> precompile, with / without attached value, delegator = signer or calling contract, contract-internal transfers before and after the call, all balances and amounts symbolic (< 2^100), final Commit, supply and every balance compared with reference bookkeeping; distribution precompile withdrawDelegatorRewards / claimRewards / withdrawValidatorCommission in the same topologies with the payout going to the named account or to a separate withdraw address; keeper side: the write-back of one transfer or self-destruct (x/evm/keeper SetAccount / SetBalance / DeleteAccount, either order, any balances and value < 2^128, sender account existing or not) lands the exact balances and conserves the supply; ICS-20 transfer in the same topologies (escrow ledger)",
+			"quick":    "every program of <= 3 operations from {value transfer, SELFDESTRUCT, nested frame} over 3 accounts, and every program of 4 operations from {transfer, SELFDESTRUCT}: after Commit total supply = sum of surviving balances, never above the initial supply, every balance = before + received - paid; staking precompile delegate through the real StateDB and the real method body: signer -> precompile and signer -> contract -> precompile, with / without attached value, delegator = signer or calling contract, contract-internal transfers before and after the call, all balances and amounts symbolic (< 2^100), final Commit, supply and every balance compared with reference bookkeeping; distribution precompile withdrawDelegatorRewards / claimRewards / withdrawValidatorCommission in the same topologies with the payout going to the named account or to a separate withdraw address; keeper side: the write-back of one transfer or self-destruct (x/evm/keeper SetAccount / SetBalance / DeleteAccount, either order, any balances and value < 2^128, sender account existing or not) lands the exact balances and conserves the supply; ICS-20 transfer in the same topologies (escrow ledger); per-call atomicity of the staking precompile (VerifC04_RunAtomic, as C04 / C05): a call that fails - out of gas at any Cosmos-side write included - keeps no bank debit, so the reverted EVM mirror and the bank stay in step (a kept debit under a reverted mirror is minted back at Commit)",
 			"thorough": "additionally 4 operations with frames over 2 accounts (one amount value)",
 		},
 		Outside:     []string{"staking createValidator and the werc20 / bank precompiles (not decided here)", "a withdrawal with nothing outstanding (the precompile indexes res.Amount[0] of an empty answer: the transaction panics and is rolled back)", "the EVM interpreter itself (operations are issued directly against the StateDB)", "fees (C07)"},
@@ -242,20 +242,20 @@ func Specs() map[string]*PropSpec {
 		Stubs:       []string{"sLedger", "c02Bank", "c04Srv (staking message server)", "authz keeper overrides"},
 	}
 	m["C01"] = &PropSpec{
-		ID: "C01", Pkgs: []string{"./x/evm/statedb", "./app/ante/evm", "./x/evm/types", "./x/evm/keeper", "./x/coinomics/keeper", "./app/ante/utils", "./app"},
+		ID: "C01", Pkgs: []string{"./x/evm/statedb", "./app/ante/evm", "./x/evm/types", "./x/evm/keeper", "./x/coinomics/keeper", "./app/ante/utils", "./x/feemarket/keeper", "./app"},
 		Quick: []Inst{{Pkg: "x/evm/statedb", Fn: "VerifC01_CommitOrder", Params: pm("ops", "2", "kinds", "ts"), EngineReplay: true},
 			{Pkg: "app/ante/evm", Fn: "VerifC01_NodeLocalConfig", Params: pm("msgs", "2")}, {Pkg: "x/evm/types", Fn: "VerifC01_TracerConfig", Params: pm()},
 			{Pkg: "x/evm/keeper", Fn: "VerifC01_BlockHashNoProcessState", Params: pm("lookups", "1"), EngineReplay: true}, {Pkg: "x/coinomics/keeper", Fn: "VerifC13_Mint", Params: pm()},
-			{Pkg: "app/ante/utils", Fn: "VerifC01_ClaimRewardsOrder", Params: pm("delegations", "3"), EngineReplay: true}},
+			{Pkg: "app/ante/utils", Fn: "VerifC01_ClaimRewardsOrder", Params: pm("delegations", "3"), EngineReplay: true}, {Pkg: "x/feemarket/keeper", Fn: "VerifC01_BaseFeeNoProcessState", Params: pm()}},
 		Thorough: []Inst{{Pkg: "x/evm/statedb", Fn: "VerifC01_CommitOrder", Params: pm("ops", "3", "kinds", "ts", "amts", "1", "vals", "2"), EngineReplay: true},
 			{Pkg: "app/ante/evm", Fn: "VerifC01_NodeLocalConfig", Params: pm("msgs", "3")}, {Pkg: "x/evm/types", Fn: "VerifC01_TracerConfig", Params: pm()},
 			{Pkg: "x/evm/keeper", Fn: "VerifC01_BlockHashNoProcessState", Params: pm("lookups", "2"), EngineReplay: true}, {Pkg: "x/coinomics/keeper", Fn: "VerifC13_Mint", Params: pm()},
-			{Pkg: "app/ante/utils", Fn: "VerifC01_ClaimRewardsOrder", Params: pm("delegations", "4"), EngineReplay: true}},
+			{Pkg: "app/ante/utils", Fn: "VerifC01_ClaimRewardsOrder", Params: pm("delegations", "4"), EngineReplay: true}, {Pkg: "x/feemarket/keeper", Fn: "VerifC01_BaseFeeNoProcessState", Params: pm()}},
 		Wiring: []WiringFact{{Kind: "mapranges",
 			Callee: "(*github.com/haqq-network/haqq/app.Haqq).BlockedAddrs|(*github.com/haqq-network/haqq/app.Haqq).ModuleAccountAddrs|github.com/haqq-network/haqq/app.GetMaccPerms|(*github.com/haqq-network/haqq/x/evm/statedb.journal).sortedDirties|(github.com/haqq-network/haqq/x/evm/statedb.Storage).SortedKeys|(github.com/haqq-network/haqq/x/evm/keeper.Keeper).GetAvailablePrecompileAddrs|github.com/haqq-network/haqq/ethereum/eip712.sortedJSONKeys|github.com/haqq-network/haqq/app/upgrades/v1.7.5.processAccount",
 			Why:    "the first three build maps / sets from maps at construction time, the next four sort what they collected before anything uses it (sortedDirties / SortedKeys are explored order by order by VerifC01_CommitOrder), processAccount belongs to the historical v1.7.5 upgrade handler whose results are sorted afterwards (its unsynchronised goroutines are outside this technique, see DESIGN)"}},
 		Bounds: map[string]string{
-			"quick":    "StateDB.Commit after every program of <= 2 operations (transfers, SSTOREs) over 3 accounts sharing their first 16 address bytes and 2 slots: all iteration orders of the dirty-account and dirty-storage maps explored; the sequence of keeper writes is ascending in (address, key) for each; node-local configuration: the eth gas-consume decorator in DeliverTx mode on <= 2 messages (any gas, prices, base fee, block gas limit) under two arbitrary values of the operator's max-tx-gas-wanted setting gives the same verdict, transaction gas limit and priority (relational check); building the EVM tracer from the node-local evm.tracer option succeeds for every option value and for calls and contract creations; BLOCKHASH (Keeper.GetHashFn, keeper built by the real NewKeeper): a replica that served <= 1 earlier lookup (any of 2 heights, any subset of the historical entries kept at that time) answers a lookup exactly as a freshly started replica over the same consensus state (any subset kept now, present entries answer their header hash, pruned ones the zero hash); node time zone: the engine gives every process-local time value (time.Unix / UnixMilli / Local()) an arbitrary zone offset in [-12h, +14h] as an environment input, and the coinomics mint step (the state-machine code that reads calendar fields) equals the UTC formula for every offset (VerifC13_Mint, as C13); fee path of both ante routes (ClaimStakingRewardsIfNecessary, <= 3 delegations, any rewards / fee / balance): under every iteration order of every Go map the code ranges over, the delegations whose rewards are withdrawn are the shortest store-order prefix covering the shortfall; coverage guard: no function of the application's own packages ranges over a Go map outside an audited list of 8",
+			"quick":    "StateDB.Commit after every program of <= 2 operations (transfers, SSTOREs) over 3 accounts sharing their first 16 address bytes and 2 slots: all iteration orders of the dirty-account and dirty-storage maps explored; the sequence of keeper writes is ascending in (address, key) for each; node-local configuration: the eth gas-consume decorator in DeliverTx mode on <= 2 messages (any gas, prices, base fee, block gas limit) under two arbitrary values of the operator's max-tx-gas-wanted setting gives the same verdict, transaction gas limit and priority (relational check); building the EVM tracer from the node-local evm.tracer option succeeds for every option value and for calls and contract creations; BLOCKHASH (Keeper.GetHashFn, keeper built by the real NewKeeper): a replica that served <= 1 earlier lookup (any of 2 heights, any subset of the historical entries kept at that time) answers a lookup exactly as a freshly started replica over the same consensus state (any subset kept now, present entries answer their header hash, pruned ones the zero hash); node time zone: the engine gives every process-local time value (time.Unix / UnixMilli / Local()) an arbitrary zone offset in [-12h, +14h] as an environment input, and the coinomics mint step (the state-machine code that reads calendar fields) equals the UTC formula for every offset (VerifC13_Mint, as C13); fee path of both ante routes (ClaimStakingRewardsIfNecessary, <= 3 delegations, any rewards / fee / balance): under every iteration order of every Go map the code ranges over, the delegations whose rewards are withdrawn are the shortest store-order prefix covering the shortfall; base fee: computing it for a block, then for any other gas figure, then for the first again gives the same value (no state kept in package-level big.Int constants); coverage guard: no function of the application's own packages ranges over a Go map outside an audited list of 8",
 			"thorough": "<= 3 operations; <= 2 earlier BLOCKHASH lookups; <= 4 delegations",
 		},
 		Outside:     []string{"equality of app hashes of two replicas over block histories (BaseApp, IAVL, all modules)", "goroutine-fed counters (app/tps_counter.go): concurrency", "fixed Begin/EndBlocker ordering and sorted module-account construction in app.go (construction-time facts)"},
@@ -292,11 +292,11 @@ func Specs() map[string]*PropSpec {
 		Stubs:       []string{"c16Bank", "c16 registry"},
 	}
 	ek := func(fn string) Inst { return Inst{Pkg: "x/erc20/keeper", Fn: fn, Params: pm(), EngineReplay: true} }
-	c10 := []Inst{ek("VerifC10_ConvertCoin"), ek("VerifC10_ConvertERC20"), ek("VerifC10_Adversarial"), ek("VerifC10_Hook"), ek("VerifC10_HookUntrustedLog"), ek("VerifC10_OnRecvPacket"), {Pkg: "x/bank/keeper", Fn: "VerifC10_BankSendWrapper", Params: pm(), EngineReplay: true}}
+	c10 := []Inst{ek("VerifC10_ConvertCoin"), ek("VerifC10_ConvertERC20"), ek("VerifC10_Adversarial"), ek("VerifC10_Hook"), ek("VerifC10_HookUntrustedLog"), ek("VerifC10_OnRecvPacket"), {Pkg: "x/bank/keeper", Fn: "VerifC10_BankSendWrapper", Params: pm(), EngineReplay: true}, {Pkg: "x/evm/statedb", Fn: "VerifC10_NestedWriteSurvivesCommit", Params: pm(), EngineReplay: true}}
 	m["C10"] = &PropSpec{
-		ID: "C10", Pkgs: []string{"./x/erc20/keeper", "./x/bank/keeper"}, Quick: c10, Thorough: c10,
+		ID: "C10", Pkgs: []string{"./x/erc20/keeper", "./x/bank/keeper", "./x/evm/statedb"}, Quick: c10, Thorough: c10,
 		Bounds: map[string]string{
-			"quick":    "one conversion from an arbitrary fully backed state of one pair (coin-origin and ERC20-origin), amounts and balances < 2^100: MsgConvertCoin, MsgConvertERC20 against the honest contract ledger; both messages against an adversarial contract (every call: arbitrary revert / return value / reported balance / Approval log); the EVM hook over receipts of <= 2 logs (registered / unregistered contract x Transfer / Approval / unknown event x recipient module / other x amount); the hook against a registered contract that emits an unbacked Transfer log; the IBC receive middleware OnRecvPacket after the vouchers were credited (honest token, possibly paused; module enabled or not; any received amount): a success acknowledgement is returned only over a consistent, fully backed state; bank MsgSend wrapper (subUnlockedERC20Tokens) against a token that reports arbitrary balances, returns true / false from transfer and may emit an Approval: for a foreign (ERC20-origin) token the send succeeds only if the receiver was credited exactly the amount, transfer returned true and no Approval was emitted",
+			"quick":    "one conversion from an arbitrary fully backed state of one pair (coin-origin and ERC20-origin), amounts and balances < 2^100: MsgConvertCoin, MsgConvertERC20 against the honest contract ledger; both messages against an adversarial contract (every call: arbitrary revert / return value / reported balance / Approval log); the EVM hook over receipts of <= 2 logs (registered / unregistered contract x Transfer / Approval / unknown event x recipient module / other x amount); the hook against a registered contract that emits an unbacked Transfer log; the IBC receive middleware OnRecvPacket after the vouchers were credited (honest token, possibly paused; module enabled or not; any received amount): a success acknowledgement is returned only over a consistent, fully backed state; bank MsgSend wrapper (subUnlockedERC20Tokens) against a token that reports arbitrary balances, returns true / false from transfer and may emit an Approval: for a foreign (ERC20-origin) token the send succeeds only if the receiver was credited exactly the amount, transfer returned true and no Approval was emitted; conversion nested inside an EVM transaction (ICS-20 precompile -> automatic ERC20 conversion): a storage slot written by the outer execution, flushed by the precompile and then written by the nested execution through the keeper ends the transaction with the nested value unless the outer execution writes it again (4 values per write, real StateDB)",
 			"thorough": "same",
 		},
 		Outside:     []string{"the Solidity bytecode of ERC20MinterBurnerDecimals (its ledger semantics are the stub)", "the acknowledgement / timeout IBC callbacks and pair toggles (they end in ConvertCoin / ConvertERC20, decided here); packet JSON decoding and bech32 re-prefixing on receive", "sequences of conversions (each step is proved from an arbitrary backed state: inductive)"},
